@@ -189,6 +189,8 @@ def gen_park(rng):
         ms = rng.choice([0, 0, 0, 3, 20, 60]) if after != "call" else rng.choice([0, 30, 30, T + 200])
         parks.append({"point": point, "conn": len(conns), "after": after, "ms": ms})
         conns.append({"pre": rng.choice([[["f"]], [["f"]], [["f"]], [["s", rng.choice([20, 60])]], []]), "post": []})
+        if point == "acc_after_accept" and rng.random() < 0.5:
+            conns[-1]["pre"] = []
         if kind == "held+queued" and point != "acc_after_accept":
             for _ in range(rng.choice([1, 1, 2, 4])):
                 conns.append({"pre": small(), "post": []})
@@ -224,6 +226,19 @@ def _idx(trace, pred, start=0):
         if pred(trace[i]):
             return i
     return None
+
+
+def _held_as(tr, ci, w):
+    """Where connection `ci` was when worker `w` took its shutdown command (read off the raw trace)."""
+    i_ws = _idx(tr, lambda e: e[0] == "wShutdown" and e[1] == w)
+    if i_ws is None:
+        return "worker %d never took the command" % w
+    before = tr[:i_ws]
+    if _idx(before, lambda e: e[0] == "cPoll" and e[1] == ci) is not None:
+        return "already polled when worker %d took the command" % w
+    if _idx(before, lambda e: e[0] == "wRecv" and e[2] == ci) is not None:
+        return "taken off the queue by worker %d's regular loop (spawned, or about to be) but not yet polled when it took the command" % w
+    return "still queued in worker %d's inbox when it took the command" % w
 
 
 def oracle(case, out):
@@ -288,11 +303,16 @@ def oracle(case, out):
         for w in (range(case["workers"]) if pk["worker"] < 0 else [pk["worker"]]):
             if blocked_until.get(w, 0) is not None:
                 blocked_until[w] = max(blocked_until.get(w, 0), r)
+    # A connection the ACCEPTOR was parked with: its request reaches the socket while the thread that runs the
+    # I/O driver of every connection is parked, so whether the connection's first poll already sees the request
+    # is decided by a race the failpoint created (readiness is delivered only when the acceptor thread next
+    # turns its driver). "Received before the call" cannot be established from outside: nothing is demanded.
+    acc_held = {p.get("conn") for p in case.get("parks", []) if p["point"] == "acc_after_accept"}
     # (2) every request received before the call is answered in full if its handler finishes in time
     all_idle = max([0.0] + [pk["released_us"] / 1000.0 for pk in obs.get("parks", []) if pk["hit"] and pk["released_us"] is not None])
     for ci, c in enumerate(case["conns"]):
         o = obs["conns"][ci]
-        if c.get("race") or ci not in worker_of:
+        if c.get("race") or ci not in worker_of or ci in acc_held:
             continue
         w = worker_of[ci]
         for k, rq in enumerate(c.get("pre", [])):
@@ -310,9 +330,9 @@ def oracle(case, out):
             if graceful and fin is not None and fin <= T - MARGIN_MS and o["responses"] <= k:
                 began = _idx(tr, lambda e: e[0] == "hBegin" and e[1] == ci and e[2] == k) is not None
                 return ("graceful shutdown (timeout %d ms): request %d on connection %d was sent before the call "
-                        "(connection %s at worker %d), its handler needs until ~%d ms after the call, "
+                        "(connection %s), its handler needs until ~%d ms after the call, "
                         "but the client never got the response (handler %s)" % (
-                            T, k, ci, "queued/served", w, fin, "ran" if began else "never invoked"))
+                            T, k, ci, _held_as(tr, ci, w), fin, "ran" if began else "never invoked"))
     # (4) it resolves ONCE all workers are idle: not later ...
     racing_work = any(c.get("race") and c.get("pre") for c in case["conns"]) or any(c.get("post") for c in case["conns"])
     if graceful and all_idle is not None and not racing_work and ret_ms > min(T, all_idle) + EPS_MS:
@@ -541,10 +561,10 @@ def run(R):
         len(cases), len(seen), len(disagreements), len(failures), hist, met))
     R.log("worker took Graceful holding: %s; failpoints hit: %s" % (wmet, park_hits))
     # the scheduling control must be effective: the interleavings it exists for were actually produced
-    if not R.replay:
-        have = {"spawned, empty queue": sum(v for k, v in wmet.items() if "spawned" in k and "queued" not in k),
-                "spawned and queued": sum(v for k, v in wmet.items() if "spawned" in k and "queued" in k)}
-        R.coverage["forced_interleavings"] = have
+    have = {"spawned, empty queue": sum(v for k, v in wmet.items() if "spawned" in k and "queued" not in k),
+            "spawned and queued": sum(v for k, v in wmet.items() if "spawned" in k and "queued" in k)}
+    R.coverage["forced_interleavings"] = have
+    if not R.replay and not failures and not disagreements:
         need = {"spawned, empty queue": 5, "spawned and queued": 2}
         missing = {k: have[k] for k, v in need.items() if have[k] < (v if R.tier == "quick" else 10 * v)}
         if missing:
